@@ -51,13 +51,25 @@ func TestC17Child(t *testing.T) {
 		for i := 0; i < idle; i++ {
 			w.StepSlot()
 		}
+		// other sporks exist on the chain and are never activated (their ids sort before or after at random)
+		decoys := int(seed/5) % 3
+		for i := 0; i < decoys; i++ {
+			gn.CreateSpork(n, g.Spork.Address, fmt.Sprintf("decoy-%d", i))
+			w.StepSlot()
+		}
 		b := gn.CreateSpork(n, g.Spork.Address, "spork-unknown-to-binary")
 		if b == nil {
 			fmt.Fprintf(out, "C17CHILD create refused\n")
 			return
 		}
 		w.StepSlot()
+		if (seed/15)%2 == 1 {
+			gn.CreateSpork(n, g.Spork.Address, "decoy-late")
+			decoys++
+		}
 		w.StepSlot()
+		w.StepSlot()
+		fmt.Fprintf(out, "C17CHILD decoys=%d\n", decoys)
 		act := gn.ActivateSpork(n, b.Hash, g.Spork.Address)
 		if act == nil {
 			fmt.Fprintf(out, "C17CHILD activate refused\n")
